@@ -62,6 +62,7 @@ structure HubSt where
   events   : List (Nat × Str × Bool) := []  -- ghost: subscription events dispatched (label, selector, active)
   okPubs   : Nat := 0              -- ghost: publish requests answered 200
   openStreams : Int := 0           -- ghost: accepted connections whose handler has not finished shutdown
+  failed   : List (Nat × List Str × Bool) := []  -- ghost: registrations that failed half-way (label, selectors, hub was open)
   deriving Repr
 
 def hexDigitLower (n : Nat) : Char := if n < 10 then Char.ofNat (48 + n) else Char.ofNat (87 + n)
@@ -267,6 +268,27 @@ def HubSt.connect (M : Str → Str → Bool) (tok : Str → Option Claims) (st :
                           openStreams := st.openStreams + 1 }
       (st.settle M (st.conns.length + 2), { status := 200, body := [], respLEID := resp })
 
+/-- A registration that fails half-way: the request is authorised and announced, then `AddSubscriber`
+    returns an error although the hub is open — on Bolt, the history replay hits an entry it cannot
+    decode or a read error (an environment fault: the operation, not the model, says that it happens).
+    The hub answers 503, unregisters the subscriber again (`RemoveSubscriber`: the transport had put it
+    in its list before replaying) and announces the end. No connection comes into being. -/
+def HubSt.connectFailing (M : Str → Str → Bool) (tok : Str → Option Claims) (st : HubSt) (label : Nat) (r : SubReq) :
+    HubSt × SubResp :=
+  let sid := uuidOf st.uuid
+  let st := { st with uuid := st.uuid + 1 }
+  match subscribeDecision st.cfg tok r with
+  | .refused s b => (st, { status := s, body := b, respLEID := none })
+  | .accepted c priv leid =>
+    let conn : Conn := { label := label, sid := sid, sels := r.topics, allowed := priv,
+                         payload := (match c with | some c => c.mercure.payload | none => []),
+                         reqLEID := leid, respLEID := none, epoch := st.epoch }
+    let wasOpen := !st.closed
+    let st := st.subscriptionEvents M conn true
+    let st := st.subscriptionEvents M conn false
+    let st := { st with failed := st.failed ++ [(label, r.topics, wasOpen)] }
+    (st.settle M (st.conns.length + 2), { status := 503, body := "Service Unavailable\n".toList, respLEID := none })
+
 /-- The client goes away (request context cancelled). -/
 def HubSt.clientClose (M : Str → Str → Bool) (st : HubSt) (label : Nat) : HubSt :=
   match getConn st.conns label with
@@ -304,6 +326,7 @@ def HubSt.restart (M : Str → Str → Bool) (st : HubSt) : HubSt :=
 inductive HubOp where
   | publish (r : PubReq)
   | connect (label : Nat) (r : SubReq)
+  | connectFail (label : Nat) (r : SubReq)   -- a registration whose AddSubscriber fails (replay error)
   | clientClose (label : Nat)
   | stall (label : Nat) (b : Bool)
   | failNext (label : Nat)
@@ -315,6 +338,7 @@ inductive HubOp where
 def HubSt.step (M : Str → Str → Bool) (tokP tokS : Str → Option Claims) (st : HubSt) : HubOp → HubSt
   | .publish r => (st.publish M tokP r).1
   | .connect l r => (st.connect M tokS l r).1
+  | .connectFail l r => (st.connectFailing M tokS l r).1
   | .clientClose l => st.clientClose M l
   | .stall l b => st.setStalled M l b
   | .failNext l => st.failNextWrite l
@@ -330,6 +354,7 @@ def HubSt.init (cfg : HubCfg) (kind : Kind) (size cap : Nat) : HubSt :=
 
 def HubOp.connectLabel : HubOp → Option Nat
   | .connect l _ => some l
+  | .connectFail l _ => some l
   | _ => none
 
 /-- The harness gives every connection its own label. -/
